@@ -77,13 +77,13 @@ func ruleR15_3(w *World, r *Report) {
 			if ts == nil {
 				continue
 			}
-			multi := inLoop(c.Block()) || rec[fn]
+			multi := inLoop(c.Block()) || rec[fn] || enteredInLoop(fn)
 			if !multi {
 				continue
 			}
 			n++
 			ok := false
-			src := ts
+			src := throughHelperParam(ts)
 			if ph, isPhi := src.(*ssa.Phi); isPhi && len(ph.Edges) == 1 {
 				src = ph.Edges[0]
 			}
